@@ -140,30 +140,14 @@ Fixpoint no_ubreak (s : string) : bool :=
       && no_ubreak r
   end.
 
-(* no ignore-end of a block is reached, after the violation line, with the violation outside that block *)
-Fixpoint block_avoid (a : list aline) (i v : nat) (open : bool) : bool :=
-  match a with
-  | [] => true
-  | l :: rest =>
-      match l with
-      | LStart _ _ _ _ => block_avoid rest (S i) v true
-      | LEnd _ _ => negb (open && (v <? i)) && block_avoid rest (S i) v false
-      | _ => if (i =? v) && open then true else block_avoid rest (S i) v open
-      end
-  end.
-
+(* the defect classes that remain after the fix: commits: a form feed etc. in the text (flag 0), a bracketed rule list on a block
+   start (flag 6).  The classes of the repaired flags 1-5 are empty. *)
 Definition line_avoids (q : iquirks) (l : aline) : bool :=
   (negb (q_splitlines_unicode q) || no_ubreak (render_line l))
   && match l with
-     | LSame _ _ n => negb (q_bare_line_unsupported q) || match n with Bare => false | _ => true end
-     | LNext _ st _ => negb (q_next_line_hash_only q) || match st with Slashes => false | _ => true end
      | LStart _ _ br n => negb (q_start_rules_from_code q) || negb br || match n with Bare => true | _ => false end
-     | LFile st n =>
-         (negb (q_file_hash_only q) || match st with Slashes => false | _ => true end)
-         && (negb (q_bare_file_unsupported q) || match n with Bare => false | _ => true end)
      | _ => true
      end.
 
 (* the input avoids the defect class of every flag that is on in q (all flags off: no restriction) *)
-Definition avoids (q : iquirks) (a : list aline) (v : nat) : bool :=
-  forallb (line_avoids q) a && (negb (q_block_end_before q) || block_avoid a 1 v false).
+Definition avoids (q : iquirks) (a : list aline) : bool := forallb (line_avoids q) a.
